@@ -6,6 +6,7 @@ import InovesaModel.Model.RFDrift
 import InovesaModel.Model.PhaseSpace
 import InovesaModel.Model.ElectricField
 import InovesaModel.Model.Options
+import InovesaModel.Model.MainProgram
 open Inovesa
 namespace Driver
 
@@ -373,6 +374,32 @@ def runFPIter (c : Case) : List String :=
     (g', if k % every == 0 || k == steps then out ++ [moments g' k] else out)) (c.data, [moments c.data 0])
   ["case " ++ c.id] ++ lines ++ [hexLine "out" g.toList]
 
+/-! ### simulation part of main(): schedule of records -/
+
+/-- main <id> <laststep> <outstep> <h5save> <renormalize> <hasWake> <hasFile> <hasDrfm> <sigAt|-1>
+    Evaluates the generated program on a dummy semantics and prints what ends up in the file:
+    record steps, phase-space steps, and the lengths of the other datasets. -/
+def runMainCase (c : Case) : List String :=
+  let cfg : MCfg := { laststep := natArg c 2, outstep := natArg c 3, h5save := natArg c 4,
+                      renormalize := intArg c 5, hasWake := natArg c 6 == 1, hasFile := natArg c 7 == 1,
+                      hasDrfm := natArg c 8 == 1 }
+  let sig : Option Nat := if intArg c 9 < 0 then none else some (intArg c 9).toNat
+  let sem : Sem Nat :=
+    { xproj := id, yproj := id, integ := id, normalize := (fun g _ => g), mom0 := (fun a _ => a),
+      mom1 := (fun a _ => a), wake := id, wakepad := id, csr := id, kick := (fun g _ => g + 1),
+      ident := (fun g => g + 1), rfStatic := (fun g => g + 1), rfDyn := (fun g _ => g + 1),
+      drift := (fun g => g + 1), fp := (fun g => g + 1), track := (fun _ t _ => t) }
+  let s0 : MState Nat := startState 0 0 (List.range cfg.laststep) 0
+  let s := runMain sem cfg sig s0
+  let f := s.file
+  let nums (l : List Nat) : String := " ".intercalate (l.map toString)
+  ["case " ++ c.id,
+   "ints steps " ++ toString s.step ++ " markers " ++ toString (Gen.setupMarkers + s.clock),
+   "ints t " ++ nums (f.recs.map (·.t)),
+   "ints ps " ++ nums (f.ps.map (·.1)),
+   "ints lens csr " ++ toString f.csr.length ++ " wake " ++ toString f.wake.length ++ " tracks " ++
+     toString f.tracks.length ++ " rfk " ++ toString f.rfk.length ++ " padded " ++ toString f.padded.length]
+
 def dispatch (c : Case) : List String :=
   match c.kind with
   | "kick" => runKick c
@@ -384,6 +411,7 @@ def dispatch (c : Case) : List String :=
   | "ef" => runEF c
   | "opts" => runOpts c
   | "fpiter" => runFPIter c
+  | "main" => runMainCase c
   | "drift" => runDrift c
   | k => ["case " ++ c.id, "error unknown-kind " ++ k]
 
